@@ -74,6 +74,16 @@ spec fn full_w(f: f::Layout, l: s::Layout, table: Map<String, Vec<&AliasMapping>
 pub closed spec fn convert_full(f: f::Layout, l: s::Layout) -> bool {
   exists|table: Map<String, Vec<&AliasMapping>>, mchunks: Seq<Seq<s::Mapping>>, stages: Seq<Seq<crate::keys::MappingV>>| #[trigger] full_w(f, l, table, mchunks, stages)
 }
+/// C13, acceptance of a whole layout: with the alias table of the layout, some source mapping cannot be expanded (first_rejects), some repeat-only
+/// entry cannot be applied (ro_rejects), or the fully converted layout contains a mapping the mapper cannot run (empty trigger, a key twice in a
+/// trigger / output / repeat chord, negative repeat times)
+spec fn rejects_w(f: f::Layout, table: Map<String, Vec<&AliasMapping>>) -> bool {
+  table_for(table, f.mappings@, f.mappings@.len() as int) && (
+    (exists|i: int| 0 <= i < f.mappings@.len() && first_rejects(table, #[trigger] f.mappings@[i]))
+    || (exists|i: int| 0 <= i < f.mappings@.len() && ro_rejects(table, #[trigger] f.mappings@[i]))
+    || (exists|l: s::Layout| #[trigger] convert_full(f, l) && !crate::keys::layout_ok(l)))
+}
+pub closed spec fn convert_rejects(f: f::Layout) -> bool { exists|table: Map<String, Vec<&AliasMapping>>| #[trigger] rejects_w(f, table) }
 /// one more mapping entered into the trigger table
 proof fn lemma_tab_step(t0: Map<FromSet, Vec<usize>>, t1: Map<FromSet, Vec<usize>>, key: FromSet, vnew: Vec<usize>, ms: Seq<s::Mapping>, m: s::Mapping)
   requires
@@ -125,6 +135,8 @@ pub fn convert(f: &f::Layout) -> (r: Result<s::Layout, String>)
     r is Ok ==> convert_shape(*f, r.unwrap()),
     //@ C13 | the whole result: the first-pass expansion of every source mapping (trigger, output, repeat mode, absorbing list) in source order, then every repeat-only entry in source order sets the repeat mode of the first-pass mappings with the same trigger set, or adds an identity mapping if there is none
     r is Ok ==> convert_full(*f, r.unwrap()),
+    //@ C13 | acceptance: a layout is refused only if a source mapping cannot be expanded, a repeat-only entry cannot be applied, or the converted layout contains a mapping the mapper cannot run
+    r is Err ==> convert_rejects(*f),
 { //@ | body
   proof { axiom_fromset_key_model(); axiom_string_key_model(); assert(vstd::std_specs::hash::builds_valid_hashers::<std::collections::hash_map::RandomState>()); }
   broadcast use vstd::std_specs::hash::group_hash_axioms;
@@ -143,6 +155,7 @@ pub fn convert(f: &f::Layout) -> (r: Result<s::Layout, String>)
       vstd::std_specs::hash::obeys_key_model::<FromSet>(), vstd::std_specs::hash::builds_valid_hashers::<std::collections::hash_map::RandomState>(),
       //@ C13 | the result so far is the expansion of the source mappings handled so far, in source order
       table == alias_mappings@, itf.seq().len() == f.mappings@.len(), forall|j: int| 0 <= j < f.mappings@.len() ==> *itf.seq()[j] == f.mappings@[j],
+      table_for(table, f.mappings@, f.mappings@.len() as int),
       chunks.len() == itf.index@, forall|i: int| 0 <= i < chunks.len() ==> pairs_of(table, f.mappings@[i], #[trigger] chunks[i]),
       fts(res@) == flat(chunks),
       mchunks.len() == itf.index@, forall|i: int| 0 <= i < mchunks.len() ==> expands(table, f.mappings@[i], #[trigger] mchunks[i]),
@@ -152,6 +165,9 @@ pub fn convert(f: &f::Layout) -> (r: Result<s::Layout, String>)
   { //@ | body
     //@ C13 | the source mapping of this iteration
     proof { assert(*fm == f.mappings@[itf.index@ as int]); }
+    //@ C13 | acceptance: a refusal of this source mapping is a refusal of the layout
+    proof { assert(first_rejects(table, f.mappings@[itf.index@ as int]) ==> rejects_w(*f, table)); }
+    //@ C13 | the source mapping of this iteration
     let sms = convert_mapping(&alias_mappings, fm)?;
     //@ C13 | its expansion
     let ghost smsv = sms@; let ghost ft0 = fts(res@); let ghost rs0 = res@;
@@ -223,12 +239,16 @@ pub fn convert(f: &f::Layout) -> (r: Result<s::Layout, String>)
       //@ C13 | the repeat-only pass so far: one stage per source mapping handled
       table == alias_mappings@, itg.seq().len() == f.mappings@.len(), forall|j: int| 0 <= j < f.mappings@.len() ==> *itg.seq()[j] == f.mappings@[j],
       tab_sound(from_table@, res@), tab_dense(from_table@, n_main), tab_n(from_table@) == n_main,
+      table_for(table, f.mappings@, f.mappings@.len() as int),
       stages.len() == itg.index@ + 1, stages[0] == mvs(flatm(mchunks)), flatm(mchunks).len() == n_main, stages.last() == mvs(res@),
       forall|i: int| 0 <= i < itg.index@ ==> ar_rel(table, f.mappings@[i], n_main, #[trigger] stages[i], stages[i + 1]),
   { //@ | body
     //@ C13 | frame of one repeat-only pass
     let ghost r0 = res@;
     proof { assert(*fm == f.mappings@[itg.index@ as int]); }
+    //@ C13 | acceptance: a refusal of this repeat-only entry is a refusal of the layout
+    proof { assert(ro_rejects(table, f.mappings@[itg.index@ as int]) ==> rejects_w(*f, table)); }
+    //@ C13 | frame of one repeat-only pass
     adjust_repeats(&mut res, &from_table, &alias_mappings, fm)?;
     proof { lemma_frame_take(r0, res@, n_main); lemma_frame_id(r0, res@, n_main); }
     //@ C13 | one more stage
@@ -240,11 +260,20 @@ pub fn convert(f: &f::Layout) -> (r: Result<s::Layout, String>)
       stages = st2; }
   }
   
+  //@ C13 | acceptance: the converted layout as a value; a mapping refused below is an unusable mapping of it
+  let ghost lg = s::Layout { mappings: res };
+  proof { assert(full_w(*f, lg, table, mchunks, stages)); assert(convert_full(*f, lg)); }
   for sm in it: &res
     invariant
       it.seq().len() == res@.len(), forall|j: int| 0 <= j < res@.len() ==> *it.seq()[j] == res@[j],
       forall|j: int| 0 <= j < it.index@ ==> crate::keys::mapping_ok(#[trigger] res@[j]),
+      //@ C13 | acceptance: the converted layout
+      lg.mappings@ == res@, convert_full(*f, lg), table_for(table, f.mappings@, f.mappings@.len() as int),
   { //@ | body
+    //@ C13 | acceptance: an unusable mapping of the converted layout is a reason to refuse
+    proof { assert(*sm == lg.mappings@[it.index@ as int]);
+      assert(!crate::keys::mapping_ok(*sm) ==> !crate::keys::layout_ok(lg));
+      assert(!crate::keys::layout_ok(lg) ==> rejects_w(*f, table)); }
     check_mapping_is_usable(sm)?;
   }
   //@ C13 | the shape of the result
@@ -381,6 +410,16 @@ proof fn lemma_tab_frame(t: Map<FromSet, Vec<usize>>, o: Seq<s::Mapping>, n: Seq
     let x = t[k]@[j] as int; assert(x < o.len()); assert(n[x].from@ == o[x].from@);
   }
 }
+/// C13, acceptance of a repeat-only entry
+spec fn ro_rej_w(table: Map<String, Vec<&AliasMapping>>, single: f::RepeatOnlySingleMapping, it: AliasCombinationIterable, t: Seq<usize>) -> bool {
+  it.built(table, single.from.modifiers@) && all_combos(it.q()).contains(t) && single_repeat_spec(it, t, single.repeat) is None
+}
+spec fn ro_rejects(table: Map<String, Vec<&AliasMapping>>, fm: f::Mapping) -> bool {
+  match fm {
+    f::Mapping::RepeatOnlySingle(single) => undefined_alias(table, single.from.modifiers@) || exists|it: AliasCombinationIterable, t: Seq<usize>| #[trigger] ro_rej_w(table, single, it, t),
+    _ => false,
+  }
+}
 //@ C13 C14 | default: fn adjust_repeats
 #[verifier::exec_allows_no_decreases_clause]
 fn adjust_repeats<'a>(res: &mut Vec<s::Mapping>, from_table: &HashMap<FromSet, Vec<usize>>, alias_mappings: &'a HashMap<String, Vec<&'a f::AliasMapping>>, fm: &f::Mapping) -> (r: Result<(), String>)
@@ -397,6 +436,8 @@ fn adjust_repeats<'a>(res: &mut Vec<s::Mapping>, from_table: &HashMap<FromSet, V
     ar_frame(old(res)@, final(res)@),
     //@ C13 | repeat-only pass: for each combination, in order, the first-pass mappings with the same trigger set get the entry's repeat mode, or an identity mapping is added if there is none; other source mappings change nothing
     r is Ok ==> ar_rel(alias_mappings@, *fm, tab_n(from_table@), mvs(old(res)@), mvs(final(res)@)),
+    //@ C13 | acceptance: a repeat-only entry is refused only if a trigger alias is undefined, or for some combination an alias of its repeat keys does not occur on the trigger side
+    r is Err ==> ro_rejects(alias_mappings@, *fm),
   { //@ | body
   proof { axiom_fromset_key_model(); assert(vstd::std_specs::hash::builds_valid_hashers::<std::collections::hash_map::RandomState>()); }
   broadcast use vstd::std_specs::hash::group_hash_axioms;
@@ -424,6 +465,7 @@ fn adjust_repeats<'a>(res: &mut Vec<s::Mapping>, from_table: &HashMap<FromSet, V
           __it.itv() == mc, mc == modifier_combinations, all == seen + __it.rem(), all == all_combos(mc.q()), mc.built(alias_mappings@, single.from.modifiers@),
           n == tab_n(from_table@), v0 == mvs(old(res)@), tab_sound(from_table@, res@), tab_dense(from_table@, n),
           ar_fold(v0, n, mc, seen, *single) == Some(mvs(res@)),
+          *fm == f::Mapping::RepeatOnlySingle(*single),
         ensures
           //@ C13 | every combination has been handled
           seen == all,
@@ -434,6 +476,11 @@ fn adjust_repeats<'a>(res: &mut Vec<s::Mapping>, from_table: &HashMap<FromSet, V
         //@ C13 | the combination of this iteration
         let ghost t = modifier_combination.tv(); let ghost r1 = res@;
         proof { assert(rem0 == seq![t] + __it.rem()); assert(seen.push(t) + __it.rem() =~= seen + rem0); }
+        //@ C13 | acceptance: t is one of the combinations; a failure below is a failure for t
+        proof { assert(all[seen.len() as int] == t); assert(all.contains(t));
+          assert(single_repeat_spec(mc, t, single.repeat) is None ==> ro_rej_w(alias_mappings@, *single, mc, t));
+          assert(ro_rej_w(alias_mappings@, *single, mc, t) ==> ro_rejects(alias_mappings@, *fm)); }
+        //@ C13 | the combination of this iteration
         let mut from = modifier_combination.from_modifiers().clone();
         from.push(single.from.key.clone());
         //@ C13 | the trigger of this combination
@@ -585,6 +632,10 @@ impl FromSet {
   }
 }
 
+/// C13, acceptance of one source mapping in the first pass (alias definitions and repeat-only entries are never refused there)
+spec fn first_rejects(table: Map<String, Vec<&AliasMapping>>, fm: f::Mapping) -> bool {
+  match fm { f::Mapping::Single(sg) => single_rejects(table, sg), f::Mapping::Row(rm) => row_rejects(table, rm), _ => false }
+}
 //@ C13 C14 | default: fn convert_mapping
 fn convert_mapping<'a>(alias_mappings: &HashMap<String, Vec<&'a f::AliasMapping>>, m: &f::Mapping) -> (r: Result<Vec<s::Mapping>, String>)
   requires
@@ -595,6 +646,8 @@ fn convert_mapping<'a>(alias_mappings: &HashMap<String, Vec<&'a f::AliasMapping>
     match r { Ok(v) => pairs_of(alias_mappings@, *m, fts(v@)), Err(_) => true },
     //@ C13 | ... with the repeat mode and the absorbing list the statement prescribes
     match r { Ok(v) => expands(alias_mappings@, *m, v@), Err(_) => true },
+    //@ C13 | acceptance: a source mapping is refused in the first pass only for the reasons of single_rejects / row_rejects
+    r is Err ==> first_rejects(alias_mappings@, *m),
   { //@ | body
   match m {
     f::Mapping::Alias(alias) => Ok(convert_alias(alias)),
@@ -652,6 +705,16 @@ spec fn single_extras(it: AliasCombinationIterable, tuples: Seq<Seq<usize>>, sin
   ms.len() == tuples.len() && forall|i: int| 0 <= i < tuples.len() ==> single_repeat_spec(it, tuples[i], single.repeat) == Some(crate::keys::rview((#[trigger] ms[i]).repeat))
     && reify_spec(it, tuples[i], single.absorbing@, single.absorbing@.len() as int) == Some(ms[i].absorbing@)
 }
+/// C13, acceptance: what makes a single mapping unconvertible for combination t
+spec fn single_fails_at(it: AliasCombinationIterable, t: Seq<usize>, single: f::SingleMapping) -> bool {
+  translate_spec(it, t, single.to) is None || single_repeat_spec(it, t, single.repeat) is None || reify_spec(it, t, single.absorbing@, single.absorbing@.len() as int) is None
+}
+spec fn single_rej_w(table: Map<String, Vec<&AliasMapping>>, single: f::SingleMapping, it: AliasCombinationIterable, t: Seq<usize>) -> bool {
+  it.built(table, single.from.modifiers@) && all_combos(it.q()).contains(t) && single_fails_at(it, t, single)
+}
+spec fn single_rejects(table: Map<String, Vec<&AliasMapping>>, single: f::SingleMapping) -> bool {
+  undefined_alias(table, single.from.modifiers@) || exists|it: AliasCombinationIterable, t: Seq<usize>| #[trigger] single_rej_w(table, single, it, t)
+}
 //@ C13 C14 | default: fn convert_single
 #[verifier::exec_allows_no_decreases_clause]
 fn convert_single<'a>(alias_mappings: &'a HashMap<String, Vec<&'a f::AliasMapping>>, single: &f::SingleMapping) -> (r: Result<Vec<s::Mapping>, String>)
@@ -663,6 +726,8 @@ fn convert_single<'a>(alias_mappings: &'a HashMap<String, Vec<&'a f::AliasMappin
     match r { Ok(v) => exists|it: AliasCombinationIterable| it.built(alias_mappings@, single.from.modifiers@) && fts(v@) == single_pairs(it, all_combos(it.q()), *single)
         //@ C13 | ... and each of them has the repeat mode as written (Special keys with aliases replaced) and the absorbing list with aliases replaced
         && single_extras(it, all_combos(it.q()), *single, v@), Err(_) => true },
+    //@ C13 | acceptance: a single mapping is refused only if a trigger alias is undefined, or for some combination an output-side alias (output, repeat keys, absorbing list) does not occur on the trigger side
+    r is Err ==> single_rejects(alias_mappings@, *single),
   { //@ | body
   let mut res = Vec::new();
   let modifier_combinations = build_combinations(alias_mappings, &single.from.modifiers)?;
@@ -689,6 +754,10 @@ fn convert_single<'a>(alias_mappings: &'a HashMap<String, Vec<&'a f::AliasMappin
     //@ C13 | the combination of this iteration
     let ghost t = modifier_combination.tv(); let ghost res0 = res@;
     proof { assert(rem0 == seq![t] + __it.rem()); assert(seen.push(t) + __it.rem() =~= seen + rem0); }
+    //@ C13 | acceptance: t is one of the combinations; a failure below is a failure for t
+    proof { assert(all[seen.len() as int] == t); assert(all.contains(t));
+      assert(single_fails_at(mc, t, *single) ==> single_rej_w(alias_mappings@, *single, mc, t)); }
+    //@ C13 | the combination of this iteration
     let mut from = modifier_combination.from_modifiers().clone();
     from.push(single.from.key.clone());
 
@@ -797,6 +866,28 @@ spec fn template_ok(tp: RowRepeatTemplate, it: AliasCombinationIterable, t: Seq<
       _ => false },
   }
 }
+/// C13, acceptance: letter column c of a row mapping cannot be converted for combination t: the character cannot be typed on a US keyboard, its repeat
+/// letter cannot, or an alias of the absorbing list does not occur on the trigger side
+spec fn row_letter_fails(it: AliasCombinationIterable, t: Seq<usize>, rm: f::RowMapping, c: int) -> bool {
+  0 <= c < rm.to.terminal@.len() && rm.to.terminal@[c] != ' ' && (
+    (match reify_spec(it, t, rm.to.initial@, rm.to.initial@.len() as int) { Some(tm) => row_to_spec(from_mods_spec(it, t, it.modifiers@.len() as int).contains(KeyCode::RIGHTSHIFT), tm, rm.to.terminal@[c]) is None, None => true })
+    || row_repeat_spec(it, t, c, rm) is None
+    || reify_spec(it, t, rm.absorbing@, rm.absorbing@.len() as int) is None)
+}
+/// ... the row mapping cannot be converted for combination t: an output-side alias (output, repeat keys) does not occur on the trigger side, the repeat has
+/// more letters than the output, the row is unknown or has fewer keys than there are letters, or some letter fails
+spec fn row_fails_at(it: AliasCombinationIterable, t: Seq<usize>, rm: f::RowMapping) -> bool {
+  reify_spec(it, t, rm.to.initial@, rm.to.initial@.len() as int) is None
+  || (match rm.repeat { f::RowRepeat::Special { keys, delay_ms, interval_ms } => keys.terminal@.len() > rm.to.terminal@.len() || reify_spec(it, t, keys.initial@, keys.initial@.len() as int) is None, _ => false })
+  || (match crate::physical_keyboard_layouts::ukl_row(rm.from.row) { Some(row) => rm.to.terminal@.len() > row.len(), None => true })
+  || exists|c: int| #[trigger] row_letter_fails(it, t, rm, c)
+}
+spec fn row_rej_w(table: Map<String, Vec<&AliasMapping>>, rm: f::RowMapping, it: AliasCombinationIterable, t: Seq<usize>) -> bool {
+  it.built(table, rm.from.modifiers@) && all_combos(it.q()).contains(t) && row_fails_at(it, t, rm)
+}
+spec fn row_rejects(table: Map<String, Vec<&AliasMapping>>, rm: f::RowMapping) -> bool {
+  undefined_alias(table, rm.from.modifiers@) || exists|it: AliasCombinationIterable, t: Seq<usize>| #[trigger] row_rej_w(table, rm, it, t)
+}
 //@ C13 C14 | default: fn convert_row
 #[verifier::exec_allows_no_decreases_clause]
 fn convert_row<'t>(alias_mappings: &'t HashMap<String, Vec<&'t f::AliasMapping>>, row_mapping: &f::RowMapping) -> (r: Result<Vec<s::Mapping>, String>)
@@ -810,6 +901,8 @@ fn convert_row<'t>(alias_mappings: &'t HashMap<String, Vec<&'t f::AliasMapping>>
           //@ C13 | ... and each of them has the repeat mode the statement prescribes for its combination and letter column, and the absorbing list with aliases replaced
           && row_extras(it, *row_mapping, row, v@),
         None => v@.len() == 0 }), Err(_) => true },
+    //@ C13 | acceptance: a row mapping is refused only for one of the reasons of row_rejects (undefined alias; for some combination: output-side alias not on the trigger side, repeat longer than the output, unknown or too short row, a character that cannot be typed)
+    r is Err ==> row_rejects(alias_mappings@, *row_mapping),
   { //@ | body
   proof { axiom_fmt_user_types(); }
   broadcast use vstd::std_specs::fmt::group_fmt_axioms;
@@ -839,6 +932,10 @@ fn convert_row<'t>(alias_mappings: &'t HashMap<String, Vec<&'t f::AliasMapping>>
     //@ C13 | the combination of this iteration
     let ghost t = modifier_combination.tv();
     proof { assert(rem0 == seq![t] + __it.rem()); assert(seen.push(t) + __it.rem() =~= seen + rem0); }
+    //@ C13 | acceptance: t is one of the combinations; a failure below is a failure for t
+    proof { assert(all[seen.len() as int] == t); assert(all.contains(t));
+      assert(row_fails_at(mc, t, *row_mapping) ==> row_rej_w(alias_mappings@, *row_mapping, mc, t)); }
+    //@ C13 | the combination of this iteration
     let from_modifiers = modifier_combination.from_modifiers().clone();
     let to_modifiers = modifier_combination.reify_modifiers(&row_mapping.to.initial)?;
     
@@ -848,6 +945,9 @@ fn convert_row<'t>(alias_mappings: &'t HashMap<String, Vec<&'t f::AliasMapping>>
       f::RowRepeat::Special { keys, delay_ms, interval_ms } => {
         let num_repeat_chars = keys.terminal.chars().count();
         let num_to_chars = row_mapping.to.terminal.chars().count();
+        //@ C13 | acceptance: the two counts are the numbers of letters
+        proof { assert(num_repeat_chars == keys.terminal@.len()); assert(num_to_chars == row_mapping.to.terminal@.len()); }
+        //@ C13 | the combination of this iteration
         if num_repeat_chars > num_to_chars {
           return Err(format!("Row mapping has more letters in its `repeat` ({} = {}) than its `to` ({} = {}). This is not allowed because it is not clear how such keys should be mapped. Use individual mappings instead.",
             keys.terminal,
@@ -887,7 +987,15 @@ fn convert_row<'t>(alias_mappings: &'t HashMap<String, Vec<&'t f::AliasMapping>>
         //@ C13 | repeat mode and absorbing list of every mapping produced so far
         row_extras(mc, *row_mapping, row, res@), template_ok(repeat_template, mc, t, *row_mapping), modifier_combination.itv() == mc, modifier_combination.tv() == t,
         fm == from_mods_spec(mc, t, mc.modifiers@.len() as int), letters == row_mapping.to.terminal@,
+        //@ C13 | acceptance: what a failure inside this loop means
+        mc.built(alias_mappings@, row_mapping.from.modifiers@), all_combos(mc.q()).contains(t),
+        reify_spec(mc, t, row_mapping.to.initial@, row_mapping.to.initial@.len() as int) == Some(tm),
+        crate::physical_keyboard_layouts::ukl_row(row_mapping.from.row) == Some(row),
       { //@ | body
+      //@ C13 | acceptance: a failure for this letter is a failure of the row mapping for t
+      proof { assert(row_letter_fails(mc, t, *row_mapping, char_i as int) ==> row_fails_at(mc, t, *row_mapping));
+        assert(row_fails_at(mc, t, *row_mapping) ==> row_rej_w(alias_mappings@, *row_mapping, mc, t)); }
+      //@ C13 | one mapping per non-space letter handled so far, in letter order, with the trigger and output the statement prescribes
       if char_i >= from_physical_row.len() {
         return Err(format!("Don't know which keycode is at index {} in row {:?}", char_i, row_mapping.from.row));
       }
@@ -1121,6 +1229,10 @@ proof fn lemma_n_alias_step(mods: Seq<f::Modifier>, i: int)
   requires 0 <= i < mods.len()
   ensures n_alias(mods, i + 1) == n_alias(mods, i) + (if mods[i] is Alias { 1int } else { 0int })
 {}
+/// C13, acceptance: a trigger names an alias that has no definition
+pub open spec fn undefined_alias(table: Map<String, Vec<&AliasMapping>>, mods: Seq<f::Modifier>) -> bool {
+  exists|i: int| 0 <= i < mods.len() && (match #[trigger] mods[i] { f::Modifier::Alias(a) => !table.contains_key(a), _ => false })
+}
 //@ C13 C14 | default: fn build_combinations
 fn build_combinations<'t>(alias_mappings: &'t HashMap<String, Vec<&'t AliasMapping>>, modifiers: &'t Vec<f::Modifier>) -> (r: Result<AliasCombinationIterable<'t>, String>)
   requires
@@ -1131,6 +1243,8 @@ fn build_combinations<'t>(alias_mappings: &'t HashMap<String, Vec<&'t AliasMappi
     match r { Ok(it) => it.wf(), Err(_) => true },
     //@ C13 | the iterable holds, for each trigger-side alias in order, the definitions the table lists for it, and maps each alias name to its last trigger-side occurrence
     match r { Ok(it) => it.built(alias_mappings@, modifiers@), Err(_) => true },
+    //@ C13 | acceptance: the only reason to refuse a list of trigger modifiers is an alias that is not defined
+    r is Err ==> undefined_alias(alias_mappings@, modifiers@),
   { //@ | body
   proof { axiom_string_key_model(); assert(vstd::std_specs::hash::builds_valid_hashers::<std::collections::hash_map::RandomState>()); }
   broadcast use vstd::std_specs::hash::group_hash_axioms;
@@ -1162,7 +1276,10 @@ fn build_combinations<'t>(alias_mappings: &'t HashMap<String, Vec<&'t AliasMappi
       assert forall|i2: int| 0 <= i2 < iq implies occ_part_v(afm0, amap0, alias_mappings@, modifiers@, i2) by { assert(occ_part(&alias_found_mappings, smap(&alias_map), alias_mappings@, modifiers@, i2)); } }
     match m {
       f::Modifier::Alias(alias) => {
+        //@ C13 | acceptance: the alias of this iteration
+        proof { assert(modifiers@[iq] == f::Modifier::Alias(*alias)); }
         let mappings = alias_mappings.get(alias).ok_or(format!("Alias {} is undefined", alias))?;
+        //@ C13 | bookkeeping for the modifier of this iteration
         let i = alias_quantities.len();
         alias_quantities.push(mappings.len());
         alias_found_mappings.push(mappings);
@@ -1822,6 +1939,8 @@ fn check_mapping_is_usable(sm: &s::Mapping) -> (r: Result<(), String>)
     r is Ok ==> sm.from@.len() >= 1 && sm.from@.no_duplicates() && sm.to@.no_duplicates(),
     //@ C11 | ... and its repeat values are what the event loop's timer arithmetic requires: non-negative milliseconds, no key twice in the chord
     r is Ok ==> crate::keys::repeat_ok(sm.repeat),
+    //@ C13 | ... and the check is exact: a mapping is refused only if it is unusable (else meaningful layouts are rejected)
+    r is Err ==> !crate::keys::mapping_ok(*sm),
 { //@ | body
   proof { axiom_fmt_user_types(); }
   broadcast use vstd::std_specs::fmt::group_fmt_axioms;
